@@ -120,6 +120,11 @@ INFO = {
  'C19-m7': ("a scalar-kind fast path in resolveArgs accepts any argument of the same kind", 'an argument of the same bool/numeric/string kind but a different type (int64 for time.Duration, string for a named string type): passes validation and reflect.Set panics'),
  'C19-m8': ("Call takes its config from a sync.Pool and does not clear it on the option-error paths", 'a Call whose non-first option fails, then a Call with fewer option kinds: stale args/results from the failed call are applied'),
  'C20-m7': ("ticker created before the initial publish, and the clamp no longer knows the initial value", 'rate shorter than the time between arming the ticker and stamping the first value (about 100 ns): the second value is older than the first'),
+ 'C04-m7': ("cleanupLogic rejects a shift larger than the buffer instead of clamping it", 'FixedBufferCleaner with a negative target (still target <= max) or an over-asking custom cleaner: the forced trim is never applied and the quiescent size exceeds max'),
+ 'C04-m8': ("cleanupLogic releases the buffer mutex around the Cleaner call", 'the last commit/close of the slowest consumer lands while the cleaner is being evaluated in the final iteration of a pass, then silence: the broadcast finds nobody waiting and is not recorded for the cooldown either'),
+ 'C10-m7': ("ExclusiveRateLimit creates its padding timer once per option value and Resets it per execution", 'one ExclusiveRateLimit option value shared by two keys with overlapping rate-limited tails: one tail never gets its tick, the key stays running and later calls on it are never answered'),
+ 'C10-m8': ("the resolve-not-called fallback is skipped when the runner belongs to a Start-style call", 'a Start/StartAfter first on the item, a blocking or async call coalesced into the same batch, and a work function that returns without resolving: the coalesced call hangs'),
+ 'C12-m7': ("Buffer.Slice takes the read lock twice (calls Size() while holding RLock)", 'Slice concurrent with anything that takes the write lock (Put, Close, Commit, the cleaner timer) landing between the two RLocks: permanent deadlock of the buffer mutex'),
 
 }
 
